@@ -481,7 +481,9 @@ fn c15_invariants(sc: &Value, root: &str, cache_s: &str, muts: &[(usize, Option<
                     if rel.starts_with("index-v5/") && rel.split('/').count() == 4 {
                         if let Some(k) = st.and_then(|s| s.get("key")) {
                             let key = if let Some(i) = k.as_u64() { sc["keys"][i as usize].as_str().unwrap_or("").to_string() } else { k.as_str().unwrap_or("").to_string() };
-                            if rel != hash::bucket_rel(&key) && opname != "clear" {
+                            // (a cancelled future's remaining system calls may run on pool threads during later calls)
+                            let cancelled_earlier = op.map(|i| clients.get(*c).map(|cl| cl["steps"].as_array().map(|a| a.iter().take(i.saturating_sub(1)).any(|s| s.get("cancel_polls").is_some() && s.get("key").map(|k2| { let kk = if let Some(j) = k2.as_u64() { sc["keys"][j as usize].as_str().unwrap_or("").to_string() } else { k2.as_str().unwrap_or("").to_string() }; hash::bucket_rel(&kk) == rel }).unwrap_or(false))).unwrap_or(false)).unwrap_or(false)).unwrap_or(false);
+                            if rel != hash::bucket_rel(&key) && opname != "clear" && !cancelled_earlier {
                                 sub.viols.push(Viol { class: "key-opaque".into(), sig: format!("key-opaque/{}", opname), msg: format!("{} for key {:?} touched index path {} instead of {}", opname, key, rel, hash::bucket_rel(&key)), step: 0, scenario: None });
                             }
                         }
@@ -1594,8 +1596,13 @@ fn gen_c15(rng: &mut Rng, _r: u64) -> Value {
             9 => json!({"k":"api","op":"metadata","key":ki}),
             10 => json!({"k":"api","op":"exists","addr":{"val":vi,"algo":"sha256"}}),
             11 => json!({"k":"api","op":"list"}),
-            12 => json!({"k":"api","op":"copy","key":ki,"to":format!("$O/x{i}")}),
-            13 => json!({"k":"api","op":*rng.pick(&["hard_link","reflink","copy_unchecked"]),"key":ki,"to":format!("$O/x{i}")}),
+            12 | 13 => {
+                // (the destination state before the call is taken before the program starts: one call per name)
+                if rng.chance(1, 3) {
+                    prelude.push(json!({"k":"env","act":"write_file","path":format!("$O/x{i}"),"hex":"cd".repeat(rng.below(60) as usize)}));
+                }
+                if rng.chance(1, 2) { json!({"k":"api","op":"copy","key":ki,"to":format!("$O/x{i}")}) } else { json!({"k":"api","op":*rng.pick(&["hard_link","reflink","copy_unchecked"]),"key":ki,"to":format!("$O/x{i}")}) }
+            }
             14 => json!({"k":"api","op":"remove","key":ki}),
             15 => json!({"k":"api","op":"remove_hash","addr":{"val":vi,"algo":"sha256"}}),
             16 => json!({"k":"api","op":"remove_opts","fully":true,"key":ki}),
@@ -1694,6 +1701,11 @@ fn gen_c07(rng: &mut Rng, r: u64, tier: &str) -> Value {
     let policy = if tier == "quick" { *rng.pick(&["random", "random", "pct"]) } else { *rng.pick(&["random", "pct", "pct"]) };
     if bulky {
         // at every point of one client's call sequence the other client runs from start to end
+        return json!({"keys":keys,"vals":vals,"prelude":prelude,"clients":clients,"post":[],"final_observe":observe,"check_partial_records":true,
+               "plan":{"kind":"enumerate_switches","cap":60,"b_full":true},"oracle":"serial"});
+    }
+    if nclients == 2 && r % 24 == 3 {
+        // at every point of one client's call sequence the other client runs from start to end (both orders)
         return json!({"keys":keys,"vals":vals,"prelude":prelude,"clients":clients,"post":[],"final_observe":observe,"check_partial_records":true,
                "plan":{"kind":"enumerate_switches","cap":60,"b_full":true},"oracle":"serial"});
     }
@@ -1864,9 +1876,11 @@ fn gen_abandon(rng: &mut Rng) -> Value {
             _ => json!({"k":"api","op":"write","entry":*rng.pick(&["write","write_algo"]),"key":*rng.pick(&[0, 1]),"val":0,"mode":"async"}),
         };
         st["cancel_polls"] = json!(rng.range(1, 14));
+        // (the oracle settles the cancelled call by looking at its key afterwards: the follow-up uses the other key)
+        let other = if st["key"] == json!(1) { 0 } else { 1 };
         let mut steps2 = vec![st];
         if rng.chance(1, 2) {
-            steps2.push(json!({"k":"api","op":"write","entry":"write","key":1,"val":1,"mode":"async"}));
+            steps2.push(json!({"k":"api","op":"write","entry":"write","key":other,"val":1,"mode":"async"}));
         }
         return json!({"keys":keys,"vals":vals,"prelude":prelude,"clients":[{"bin":f.0,"steps":steps2}],"post":post,"strict_tmp":true,
                "plan":{"kind":"single","faults":[],"schedule":{"policy":"first"}},"oracle":"strict"});
@@ -1926,6 +1940,10 @@ fn gen_abandon_chunk(rng: &mut Rng) -> Value {
     }
     if rng.chance(1, 2) {
         st["write_all"] = json!(true);
+    }
+    if rng.chance(1, 3) {
+        // the caller flushes right after giving up on the write
+        st["flush_after"] = json!([ai]);
     }
     let mut steps = vec![st];
     if rng.chance(1, 2) {
